@@ -8,7 +8,7 @@ use rasn_compiler::prelude::RasnConfig;
 use serde_json::{json, Value};
 use std::collections::BTreeMap;
 
-fn config_of(c: &Value) -> RasnConfig {
+pub fn config_of(c: &Value) -> RasnConfig {
     let cfg = &c["cfg"];
     let strs = |v: &Value| -> Vec<String> { v.as_array().map(|a| a.iter().map(|x| x.as_str().unwrap().to_string()).collect()).unwrap_or_default() };
     RasnConfig {
@@ -21,12 +21,16 @@ fn config_of(c: &Value) -> RasnConfig {
     }
 }
 
-/// a CHOICE per payload pattern; payload symbols 1.. map to distinct Rust types
-fn choice_module(patterns: &[Value]) -> String {
-    let payload = ["INTEGER", "BOOLEAN", "Wrapped", "IA5String", "INTEGER (0..7)"];
+/// a CHOICE per payload pattern; payload symbols 1.. map to distinct Rust types.  Symbol 1 is written
+/// as two different ASN.1 types that are one Rust type (u8), depending on the position
+pub fn choice_module(patterns: &[Value]) -> String {
+    let payload = ["INTEGER (0..100)", "BOOLEAN", "Wrapped", "IA5String", "INTEGER"];
     let mut s = String::from("Choices DEFINITIONS AUTOMATIC TAGS ::= BEGIN\nWrapped ::= SEQUENCE { x INTEGER }\n");
     for (i, p) in patterns.iter().enumerate() {
-        let alts: Vec<String> = p["p"].as_array().unwrap().iter().enumerate().map(|(k, t)| format!("a{k} {}", payload[(t.as_u64().unwrap() as usize - 1) % payload.len()])).collect();
+        let alts: Vec<String> = p["p"].as_array().unwrap().iter().enumerate().map(|(k, t)| {
+            let sym = (t.as_u64().unwrap() as usize - 1) % payload.len();
+            format!("a{k} {}", if sym == 0 && k % 2 == 1 { "INTEGER (0..255)" } else { payload[sym] })
+        }).collect();
         s.push_str(&format!("Ch{i}x ::= CHOICE {{ {} }}\n", alts.join(", ")));
     }
     s.push_str("dflt Wrapped ::= { x 5 }\nEND\n");
